@@ -61,6 +61,8 @@ pub enum Via {
     Fast,
     Pooled,
     Batch,
+    /// through the production connection handler (H1), RESP frames on a scripted stream
+    Conn,
 }
 
 #[derive(Clone, Debug)]
@@ -155,54 +157,65 @@ pub enum Verdict {
 
 /// Wing–Gong search with memoisation on (linearized set, state) for one key's sub-history.
 pub fn check_key(ops: &[Rec], budget: u64) -> Verdict {
+    check_key_po(ops, budget, false)
+}
+
+/// `program_order`: additionally require that the operations of one client on this key are
+/// linearized in the order that client issued them (pipelined commands of one connection overlap in
+/// real time, so this is C04's clause, not C02's).
+pub fn check_key_po(ops: &[Rec], budget: u64, program_order: bool) -> Verdict {
     let n = ops.len();
-    if n > 63 {
+    if n > 127 {
         return Verdict::Timeout;
     }
-    let full: u64 = if n == 64 { u64::MAX } else { (1u64 << n) - 1 };
+    let bit = |i: usize| 1u128 << i;
     let rets: Vec<u64> = ops.iter().map(|o| o.ret.as_ref().map(|r| r.0).unwrap_or(u64::MAX)).collect();
-    let mut memo: HashSet<(u64, KeyState)> = HashSet::new();
+    // index of the previous operation of the same client (ops are sorted by call stamp)
+    let prev: Vec<Option<usize>> = (0..n).map(|i| (0..i).rev().find(|&j| ops[j].client == ops[i].client)).collect();
+    // candidates are tried in order of their return stamps: the effect point lies between call and
+    // return, and for pipelined bursts (all calls at the start) the returns follow the real order
+    let mut cand: Vec<usize> = (0..n).collect();
+    cand.sort_by_key(|&i| (rets[i], ops[i].call));
+    let mut memo: HashSet<(u128, KeyState)> = HashSet::new();
     let mut steps = 0u64;
-    // iterative DFS: stack of (mask, state, order, next candidate index)
-    let mut stack: Vec<(u64, KeyState, Vec<usize>, usize)> = vec![(0, KeyState::Nil, vec![], 0)];
+    // iterative DFS: stack of (mask, state, order, next candidate position)
+    let mut stack: Vec<(u128, KeyState, Vec<usize>, usize)> = vec![(0, KeyState::Nil, vec![], 0)];
     while let Some((mask, st, order, start)) = stack.pop() {
         // done when every *returned* op is linearized (pending ops may never take effect)
-        let returned_done = (0..n).all(|i| mask & (1 << i) != 0 || ops[i].ret.is_none());
+        let returned_done = (0..n).all(|i| mask & bit(i) != 0 || ops[i].ret.is_none());
         if returned_done {
             return Verdict::Linearizable(order);
         }
-        let _ = full;
         // the earliest return among unlinearized ops bounds which ops may go next
-        let min_ret = (0..n).filter(|i| mask & (1 << i) == 0).map(|i| rets[i]).min().unwrap_or(u64::MAX);
-        let mut i = start;
-        let mut pushed = false;
-        while i < n {
+        let min_ret = (0..n).filter(|i| mask & bit(*i) == 0).map(|i| rets[i]).min().unwrap_or(u64::MAX);
+        let mut p = start;
+        while p < n {
+            let i = cand[p];
             steps += 1;
             if steps > budget {
                 return Verdict::Timeout;
             }
-            if mask & (1 << i) == 0 && ops[i].call < min_ret {
+            let po_ok = !program_order || prev[i].map(|j| mask & bit(j) != 0).unwrap_or(true);
+            if mask & bit(i) == 0 && ops[i].call < min_ret && po_ok {
                 let (ns, res) = apply(&st, &ops[i].op);
                 let ok = match &ops[i].ret {
                     None => true,
                     Some((_, got)) => norm(got) == res,
                 };
                 if ok {
-                    let nm = mask | (1 << i);
+                    let nm = mask | bit(i);
                     if memo.insert((nm, ns.clone())) {
-                        // resume this frame later at i+1, descend now
-                        stack.push((mask, st.clone(), order.clone(), i + 1));
+                        // resume this frame later at p+1, descend now
+                        stack.push((mask, st.clone(), order.clone(), p + 1));
                         let mut no = order.clone();
                         no.push(i);
                         stack.push((nm, ns, no, 0));
-                        pushed = true;
                         break;
                     }
                 }
             }
-            i += 1;
+            p += 1;
         }
-        let _ = pushed;
     }
     Verdict::NotLinearizable
 }
@@ -388,6 +401,13 @@ fn toml_default() -> PerformanceConfig {
 
 /// Judge a whole history; pushes violations / counters into the report. Returns overlapping pairs.
 fn judge(rep: &mut Report, hist: &[Rec], cfg_json: &Value) {
+    judge_opt(rep, hist, cfg_json, "C02", false)
+}
+
+/// `pid`/`po`: the connection-level leg is registered under C02 (real-time order only) and under C04
+/// (plus per-connection issue order: "the reply the command would get if sent alone after its
+/// predecessors completed", under concurrency from other connections).
+fn judge_opt(rep: &mut Report, hist: &[Rec], cfg_json: &Value, pid: &str, po: bool) {
     let mut by_key: HashMap<usize, Vec<Rec>> = HashMap::new();
     for r in hist {
         by_key.entry(r.key).or_default().push(r.clone());
@@ -405,7 +425,7 @@ fn judge(rep: &mut Report, hist: &[Rec], cfg_json: &Value) {
             if let (OpKind::LPop, Some((_, Tree::Bulk(Some(v))))) = (&o.op, &o.ret) {
                 if !written.contains(v) {
                     rep.violation(
-                        format!("C02|foreign-value|op=LPop|via={:?}", o.via),
+                        format!("{}|foreign-value|op=LPop|via={:?}", pid, o.via),
                         format!("key lk{}: LPOP returned {:?}, which was never pushed to this key (a reply delivered to the wrong requester?)", k, lossy(v)),
                         json!({"cfg": cfg_json, "history": ops.iter().map(op_json).collect::<Vec<_>>()}),
                     );
@@ -432,7 +452,14 @@ fn judge(rep: &mut Report, hist: &[Rec], cfg_json: &Value) {
                 rep.count("cancelled_calls");
             }
         }
-        match check_key(ops, 3_000_000) {
+        // a linearization that also follows every client's issue order is in particular a linearization:
+        // try that (much smaller) search first, fall back to the unconstrained one
+        let verdict = match check_key_po(ops, 3_000_000, true) {
+            Verdict::Linearizable(o) => Verdict::Linearizable(o),
+            v if po => v,
+            _ => check_key_po(ops, 3_000_000, false),
+        };
+        match verdict {
             Verdict::Linearizable(order) => {
                 if overl > 0 {
                     rep.distinct(&order.iter().map(|&i| (ops[i].client, format!("{:?}", std::mem::discriminant(&ops[i].op)))).collect::<Vec<_>>());
@@ -452,7 +479,7 @@ fn judge(rep: &mut Report, hist: &[Rec], cfg_json: &Value) {
                 vias.dedup();
                 let cancelled = ops.iter().any(|o| o.ret.is_none());
                 rep.violation(
-                    format!("C02|not-linearizable|paths={}|cancelled={}", vias.join("+"), cancelled),
+                    format!("{}|not-linearizable|paths={}|cancelled={}", pid, vias.join("+"), cancelled),
                     format!("key lk{}: no linearization of {} operations by {} clients respects real time", k, ops.len(), ops.iter().map(|o| o.client).collect::<HashSet<_>>().len()),
                     json!({"cfg": cfg_json, "history": ops.iter().map(op_json).collect::<Vec<_>>()}),
                 );
@@ -525,6 +552,279 @@ pub fn lin_leg(args: &Args) {
     }
     if rep.counters.get("overlapping_pairs").copied().unwrap_or(0) == 0 {
         rep.inconclusive("no two operations of different clients overlapped in time");
+    }
+    if let Some(t) = rep.counters.get("checker_timeouts") {
+        if *t * 10 > rep.evaluations {
+            rep.inconclusive("the linearizability checker timed out on more than 10% of the key histories");
+        }
+    }
+    rep.finish(args);
+}
+
+
+// ------------------------------------------------------------------------------------------------
+// Connection-level variant: N client tasks, each with its own connection (production handler via
+// H1 over a ScriptedStream), one shared ShardedActorState, multi-thread runtime. Clients send
+// pipelined bursts (whole or in fragments); call stamp before the bytes are handed to the stream,
+// return stamp when the client has decoded the reply. A reply that never arrives although the
+// handler is parked on an empty read is decided logically (no wall clock).
+
+fn conn_frame(key: &str, op: &OpKind) -> Vec<u8> {
+    let k = key.as_bytes();
+    match op {
+        OpKind::Get => myresp::frame(&[b"GET", k]),
+        OpKind::Set(v) => myresp::frame(&[b"SET", k, v]),
+        OpKind::GetSet(v) => myresp::frame(&[b"GETSET", k, v]),
+        OpKind::SetNx(v) => myresp::frame(&[b"SETNX", k, v]),
+        OpKind::Del => myresp::frame(&[b"DEL", k]),
+        OpKind::Incr => myresp::frame(&[b"INCR", k]),
+        OpKind::Append(v) => myresp::frame(&[b"APPEND", k, v]),
+        OpKind::LPush(v) => myresp::frame(&[b"LPUSH", k, v]),
+        OpKind::LPop => myresp::frame(&[b"LPOP", k]),
+        OpKind::LLen => myresp::frame(&[b"LLEN", k]),
+        OpKind::EvalSwap(v) => myresp::frame(&[b"EVAL", SWAP_SCRIPT.as_bytes(), b"1", k, v]),
+    }
+}
+
+struct ConnCfg {
+    shards: usize,
+    clients: usize,
+    keys: usize,
+    bursts: usize,
+    max_burst: usize,
+    batch_threshold: usize,
+    min_pipeline_buffer: usize,
+    read_size: usize,
+    shared_pool: bool,
+    lua: bool,
+}
+
+#[derive(Default)]
+struct ConnOutcome {
+    hist: Vec<Rec>,
+    /// (client, description) of replies that never arrived / surplus bytes / undecodable output
+    anomalies: Vec<(usize, String, Value)>,
+    bursts_by_len: Vec<usize>,
+}
+
+async fn run_conn_history(cfg: &ConnCfg, seed: u64) -> ConnOutcome {
+    use redis_sim::production::{ConnectionConfig, ConnectionPool};
+    let mut pc: PerformanceConfig = toml_default();
+    pc.num_shards = cfg.shards;
+    let st = ShardedActorState::with_perf_config(&pc);
+    let ccfg = ConnectionConfig { max_buffer_size: 1 << 20, read_buffer_size: cfg.read_size, min_pipeline_buffer: cfg.min_pipeline_buffer, batch_threshold: cfg.batch_threshold };
+    let pool = if cfg.shared_pool { Some(Arc::new(ConnectionPool::new(2, 2))) } else { None };
+    let log: Arc<Mutex<ConnOutcome>> = Arc::new(Mutex::new(ConnOutcome::default()));
+    let mut hs = vec![];
+    for c in 0..cfg.clients {
+        let (stream, ctl) = crate::conn::scripted();
+        let stc = st.clone();
+        let cc = ccfg.clone();
+        let server = match pool.clone() {
+            Some(p) => tokio::spawn(async move { verif_hooks::run_connection_with_pool(stream, stc, cc, p).await }),
+            None => tokio::spawn(async move { verif_hooks::run_connection(stream, stc, cc).await }),
+        };
+        let log = log.clone();
+        let (keys, bursts, max_burst, lua) = (cfg.keys, cfg.bursts, cfg.max_burst, cfg.lua);
+        hs.push(tokio::spawn(async move {
+            let mut rng = rng_from(seed, c as u64 + 101);
+            let mut ctr = 0u32;
+            let mut inbuf: Vec<u8> = vec![];
+            'bursts: for _ in 0..bursts {
+                // a burst: usually mixed; sometimes a run of plain GET/SET (what the batch collectors look for)
+                let blen = rng.gen_range(1..=max_burst);
+                let plain_run = rng.gen_bool(0.35);
+                let mut ops: Vec<(usize, OpKind)> = vec![];
+                for _ in 0..blen {
+                    let key = rng.gen_range(0..keys);
+                    let (op, _) = gen_op(&mut rng, c, &mut ctr, key, lua);
+                    let op = if plain_run && !matches!(op, OpKind::Get | OpKind::Set(_)) {
+                        if rng.gen_bool(0.5) { OpKind::Get } else { ctr += 1; OpKind::Set(format!("c{}v{}", c, ctr).into_bytes()) }
+                    } else {
+                        op
+                    };
+                    ops.push((key, op));
+                }
+                let mut bytes = vec![];
+                for (k, op) in &ops {
+                    bytes.extend_from_slice(&conn_frame(&format!("lk{}", k), op));
+                }
+                // hand the bytes over whole or in 2-3 fragments with scheduler turns in between
+                let cuts = match rng.gen_range(0..4) { 0 => 1, 1 => 2, _ => 0 };
+                let mut points: Vec<usize> = (0..cuts).map(|_| rng.gen_range(1..bytes.len().max(2))).filter(|p| *p < bytes.len()).collect();
+                points.sort();
+                points.dedup();
+                let calls: Vec<u64> = ops.iter().map(|_| stamp()).collect();
+                let mut from = 0;
+                for pnt in points {
+                    ctl.send(&bytes[from..pnt]);
+                    from = pnt;
+                    for _ in 0..rng.gen_range(0..3) {
+                        tokio::task::yield_now().await;
+                    }
+                }
+                ctl.send(&bytes[from..]);
+                // collect exactly ops.len() replies
+                let mut got: Vec<(u64, Tree)> = vec![];
+                let mut idle_confirmations = 0;
+                loop {
+                    let g = ctl.gen();
+                    let idle = ctl.is_idle();
+                    inbuf.extend_from_slice(&ctl.take_output());
+                    let mut bad = None;
+                    while got.len() < ops.len() && !inbuf.is_empty() {
+                        match myresp::decode(&inbuf) {
+                            myresp::Outcome::Value(t, n) => {
+                                got.push((stamp(), t));
+                                inbuf.drain(..n);
+                            }
+                            myresp::Outcome::Incomplete => break,
+                            myresp::Outcome::Error(e) => {
+                                bad = Some(e);
+                                break;
+                            }
+                        }
+                    }
+                    if let Some(e) = bad {
+                        let mut l = log.lock().unwrap();
+                        l.anomalies.push((c, "undecodable-reply".into(), json!({"error": e, "bytes": lossy(&inbuf), "burst": ops.iter().map(|(k, o)| format!("lk{} {:?}", k, o)).collect::<Vec<_>>()})));
+                        for (i, (k, op)) in ops.iter().enumerate() {
+                            l.hist.push(Rec { client: c, key: *k, op: op.clone(), via: Via::Conn, call: calls[i], ret: got.get(i).cloned() });
+                        }
+                        break 'bursts;
+                    }
+                    if got.len() == ops.len() {
+                        break;
+                    }
+                    if idle {
+                        // the handler was parked on an empty read *before* we drained the output: nothing
+                        // more can come from its own loop. Confirm twice (a reply written by another task
+                        // would bump the generation) before calling it missing.
+                        idle_confirmations += 1;
+                        if idle_confirmations >= 3 {
+                            let mut l = log.lock().unwrap();
+                            l.anomalies.push((c, "reply-missing".into(), json!({"expected": ops.len(), "got": got.len(), "burst": ops.iter().map(|(k, o)| format!("lk{} {:?}", k, o)).collect::<Vec<_>>(), "server_closed": ctl.server_closed()})));
+                            for (i, (k, op)) in ops.iter().enumerate() {
+                                l.hist.push(Rec { client: c, key: *k, op: op.clone(), via: Via::Conn, call: calls[i], ret: got.get(i).cloned() });
+                            }
+                            break 'bursts;
+                        }
+                        for _ in 0..50 {
+                            tokio::task::yield_now().await;
+                        }
+                        continue;
+                    }
+                    ctl.changed(g).await;
+                }
+                {
+                    let mut l = log.lock().unwrap();
+                    l.bursts_by_len.push(ops.len());
+                    for (i, (k, op)) in ops.iter().enumerate() {
+                        l.hist.push(Rec { client: c, key: *k, op: op.clone(), via: Via::Conn, call: calls[i], ret: Some(got[i].clone()) });
+                    }
+                }
+                if rng.gen_bool(0.3) {
+                    tokio::task::yield_now().await;
+                }
+            }
+            // surplus bytes: anything the server wrote beyond one reply per command
+            let _ = ctl.wait_idle(crate::conn::STEP_BUDGET).await;
+            inbuf.extend_from_slice(&ctl.take_output());
+            if !inbuf.is_empty() {
+                log.lock().unwrap().anomalies.push((c, "surplus-reply-bytes".into(), json!({"bytes": lossy(&inbuf)})));
+            }
+            ctl.close();
+            let _ = server.await;
+        }));
+    }
+    for h in hs {
+        let _ = h.await;
+    }
+    let mut g = log.lock().unwrap();
+    std::mem::take(&mut *g)
+}
+
+pub fn conn_leg(args: &Args) {
+    // --po 1: judged under C04 (adds per-connection issue order and "exactly one reply per command")
+    let po = args.get_u64("po", 0) == 1;
+    let pid = if po { "C04" } else { "C02" };
+    let mut rep = Report::new(pid, "conn-concurrent");
+    if let Some(p) = &args.replay {
+        let w: Value = serde_json::from_str(&std::fs::read_to_string(p).expect("replay")).expect("json");
+        if let Some(h) = w["witness"]["history"].as_array() {
+            let hist: Vec<Rec> = h
+                .iter()
+                .map(|o| Rec {
+                    client: o["client"].as_u64().unwrap_or(0) as usize,
+                    key: o["key"].as_u64().unwrap_or(0) as usize,
+                    op: parse_opkind(o["op"].as_str().unwrap_or("Get")),
+                    via: Via::Conn,
+                    call: o["call"].as_u64().unwrap_or(0),
+                    ret: if o["ret"].is_null() { None } else { Some((o["ret"]["t"].as_u64().unwrap_or(0), tree_from(&o["ret"]["reply"]))) },
+                })
+                .collect();
+            rep.evaluations += 1;
+            judge_opt(&mut rep, &hist, &w["witness"]["cfg"], pid, po);
+        }
+        rep.note("replay re-judges the recorded history offline (schedules are not replayable by seed)");
+        rep.finish(args);
+        return;
+    }
+    let lua = cfg!(feature = "lua");
+    let n = args.get_u64("histories", if args.thorough() { 3000 } else { 300 });
+    verif_hooks::set_pause(Some(pause_cb));
+    let mut rng = args.rng(22);
+    for h in 0..n {
+        let workers = [2usize, 4, 8][rng.gen_range(0..3)];
+        let clients = rng.gen_range(2..7);
+        let keys = rng.gen_range(1..4);
+        let max_burst = [1usize, 3, 6, 10][rng.gen_range(0..4)];
+        // keep each key's sub-history inside the checker's 63-operation window
+        let budget_ops = (36 * keys / clients).max(3);
+        let bursts = (budget_ops / ((max_burst + 1) / 2).max(1)).clamp(2, 12);
+        let cfg = ConnCfg {
+            shards: [1usize, 2, 4, 16][rng.gen_range(0..4)],
+            clients,
+            keys,
+            bursts,
+            max_burst,
+            batch_threshold: [1usize, 2, 3][rng.gen_range(0..3)],
+            min_pipeline_buffer: [0usize, 14, 60][rng.gen_range(0..3)],
+            read_size: [24usize, 64, 8192][rng.gen_range(0..3)],
+            shared_pool: rng.gen_bool(0.5),
+            lua,
+        };
+        PAUSE_SEED.store(h64(&(args.seed, args.shard, h, 5u8)), Ordering::Relaxed);
+        let rt = tokio::runtime::Builder::new_multi_thread().worker_threads(workers).enable_all().build().unwrap();
+        let seed = h64(&(args.seed, args.shard as u64, h, 78u8));
+        let out = rt.block_on(run_conn_history(&cfg, seed));
+        drop(rt);
+        rep.evaluations += 1;
+        let cj = json!({"shards": cfg.shards, "clients": cfg.clients, "keys": cfg.keys, "bursts": cfg.bursts, "max_burst": cfg.max_burst, "batch_threshold": cfg.batch_threshold,
+            "min_pipeline_buffer": cfg.min_pipeline_buffer, "read_size": cfg.read_size, "shared_pool": cfg.shared_pool, "workers": workers});
+        for b in &out.bursts_by_len {
+            rep.count(&format!("burst_len:{}", if *b >= 6 { "6+".to_string() } else { b.to_string() }));
+        }
+        for (c, what, w) in &out.anomalies {
+            // a missing / surplus / undecodable reply is C04's "exactly one reply per command"; under C02 the
+            // affected operations simply stay open (no verdict from them) and the anomaly is counted
+            rep.count(&format!("anomaly:{}", what));
+            if po {
+                rep.violation(format!("C04|conc|{}", what), format!("client {} on a connection shared with {} other clients: {}", c, cfg.clients - 1, what), json!({"cfg": cj, "anomaly": w, "history": out.hist.iter().filter(|r| r.client == *c).map(op_json).collect::<Vec<_>>()}));
+            }
+        }
+        if !po && !out.anomalies.is_empty() {
+            rep.inconclusive(format!("{} connection(s) lost, gained or garbled a reply; that is C04's verdict (c04-conc leg), the history is judged with those operations left open", out.anomalies.len()));
+        }
+        judge_opt(&mut rep, &out.hist, &cj, pid, po);
+        rep.count(&format!("shards:{}", cfg.shards));
+        if h < 2 {
+            rep.sample(json!({"cfg": cj, "first_ops": out.hist.iter().take(6).map(op_json).collect::<Vec<_>>()}));
+        }
+    }
+    verif_hooks::set_pause(None);
+    if rep.counters.get("overlapping_pairs").copied().unwrap_or(0) == 0 {
+        rep.inconclusive("no two operations of different connections overlapped in time");
     }
     if let Some(t) = rep.counters.get("checker_timeouts") {
         if *t * 10 > rep.evaluations {
